@@ -4,7 +4,10 @@
 def _order(F):
     """Reverse post-order of reachable blocks from entry."""
     seen, out = set(), []
-    st = [(F.entry, iter(F.blocks[F.entry]['succs']))]
+    # successors are taken last-first (the false/exit edge of a loop before its body), so that in the reverse
+    # post-order a loop body precedes the code after the loop: the K4 worklist then stabilises a loop before it
+    # propagates downstream
+    st = [(F.entry, iter(reversed(F.blocks[F.entry]['succs'])))]
     seen.add(F.entry)
     while st:
         b, it = st[-1]
@@ -12,7 +15,7 @@ def _order(F):
         for s in it:
             if s is not None and s not in seen:
                 seen.add(s)
-                st.append((s, iter(F.blocks[s]['succs'])))
+                st.append((s, iter(reversed(F.blocks[s]['succs']))))
                 adv = True
                 break
         if not adv:
